@@ -246,6 +246,59 @@ def pmultiply (xs ys os : List Nat) (m : Mem K) : Option (Mem K) :=
 def pdivide (xs ys os : List Nat) (m : Mem K) : Option (Mem K) :=
   ploop (fun A m => some (divide A.x1 A.x2 A.out m)) xs ys os m
 
+/-! ## The element operators on a (nested) product space
+
+`ProductSpaceElement` inherits every operator of `LinearSpaceElement` (the broadcasting
+wrapper falls through to `getattr(LinearSpaceElement, op)(self, other)` when `other` is not
+an element of the base space), so the statements are those of `Op.exec` with the space
+primitives of `ProductSpace`: `_lincomb` / `_multiply` / `_divide` loop over the components,
+`element()` and `one()` allocate one fresh element per component. -/
+
+/-- `ProductSpace.one()` into the fresh part buffers `ts`
+(`self.element([space.one() for space in self.spaces])`). -/
+def pone (ts : List Nat) (m : Mem K) : Mem K := ts.foldl (fun m t => one t m) m
+
+/-- `space.lincomb(a, x, out=out)` on a product space. -/
+def plincomb1 (lc : LC K) (a : K) (xs os : List Nat) (m : Mem K) : Option (Mem K) :=
+  plincomb lc xs xs os a 0 m
+
+/-- `Op.exec` for elements of a product space given by the buffer ids of their leaf parts:
+`xs` = self, `ys` = other element, `ts` = the part buffers `element()` / `one()` / `copy()`
+will allocate. Same statements, in the same order, as `Op.exec`. -/
+def Op.execP (lc : LC K) (op : Op) (xs ys ts : List Nat) (c : K) (m : Mem K) :
+    Option (Mem K × List Nat) :=
+  match op with
+  | .addE => (plincomb lc xs ys ts 1 1 m).map (·, ts)
+  | .subE => (plincomb lc xs ys ts 1 (-1) m).map (·, ts)
+  | .mulE => (pmultiply ys xs ts m).map (·, ts)
+  | .divE => (pdivide xs ys ts m).map (·, ts)
+  | .rsubE => (plincomb lc ys xs ts 1 (-1) m).map (·, ts)
+  | .rdivE => (pdivide ys xs ts m).map (·, ts)
+  | .addS => (plincomb lc xs ts ts 1 c (pone ts m)).map (·, ts)
+  | .subS => (plincomb lc xs ts ts 1 (-c) (pone ts m)).map (·, ts)
+  | .rsubS =>
+      match plincomb1 lc c ts ts (pone ts m) with
+      | some m1 => (plincomb lc ts xs ts 1 (-1) m1).map (·, ts)
+      | none => none
+  | .mulS => (plincomb1 lc c xs ts m).map (·, ts)
+  | .divS => if c = 0 then none else (plincomb1 lc (1 / c) xs ts m).map (·, ts)
+  | .rdivS =>
+      match plincomb1 lc c ts ts (pone ts m) with
+      | some m1 => (pdivide ts xs ts m1).map (·, ts)
+      | none => none
+  | .iaddE => (plincomb lc xs ys xs 1 1 m).map (·, xs)
+  | .isubE => (plincomb lc xs ys xs 1 (-1) m).map (·, xs)
+  | .imulE => (pmultiply ys xs xs m).map (·, xs)
+  | .idivE => (pdivide xs ys xs m).map (·, xs)
+  | .iaddS => (plincomb lc xs ts xs 1 c (pone ts m)).map (·, xs)
+  | .isubS => (plincomb lc xs ts xs 1 (-c) (pone ts m)).map (·, xs)
+  | .imulS => (plincomb1 lc c xs xs m).map (·, xs)
+  | .idivS => if c = 0 then none else (plincomb1 lc (1 / c) xs xs m).map (·, xs)
+  | .neg => (plincomb1 lc (-1) xs ts m).map (·, ts)
+  | .pos => (plincomb1 lc 1 xs ts m).map (·, ts)
+  | .setZero => (plincomb lc xs xs xs 0 0 m).map (·, xs)
+  | .assign => (plincomb1 lc 1 ys xs m).map (·, xs)
+
 /-! ## `LinearSpace.lincomb` argument checks (front end), in source order -/
 
 inductive FrontOutcome
